@@ -16,7 +16,7 @@ def flagsets(G):
 def build_items(ctx, rnd, domain='visible'):
     from wcmatch import glob as G
     fs = flagsets(G)
-    pool = gen.path_pool(ctx.tier, rnd, ext=True, budget=None if ctx.quick else 30000)
+    pool = gen.path_pool(ctx.tier, rnd, ext=True, budget=None if ctx.quick else 10000)
     items = []
     for k, ast in enumerate(pool):
         if ctx.quick:
